@@ -348,7 +348,7 @@ func c19Generated(c *fw.Ctx) {
 	if c.Case == 0 {
 		c.Sample(map[string]any{"grammar": pairs[0].G.Pkg.Text, "twin_differs_by": "error alternatives removed", "input": meta[len(meta)/2].in.text})
 	}
-	res, err := genrun.Run(bin, c.WorkDir, jobs, 120)
+	res, err := genrun.Run(bin, c.WorkDir, jobs, 300)
 	if err != nil {
 		c.Violate("harness/runner/"+fw.Skeleton(err.Error()), err.Error(), nil)
 		return
